@@ -443,7 +443,7 @@ impl DMatrix {
   pub fn zeros2(r: usize, c: usize) -> (m: DMatrix) ensures m@ == zeros(r as nat, c as nat), m.ok() { unimplemented!() }
   /// nalgebra try_svd: `eps` is the CONVERGENCE TOLERANCE of the QR iteration (not a truncation threshold) and `max_niter` its
   /// budget (0 = unlimited); None if it does not converge. The factors are the decomposition of the input only up to
-  /// that tolerance: exactness is promised only for a tolerance at machine epsilon.
+  /// that tolerance: exactness is promised only up to the tolerance nalgebra's own `svd()` uses (5 * machine epsilon).
   /// TERMINATION (C08): with `max_niter == 0` the iteration is unbounded and stops only when an off-diagonal entry falls below
   /// `eps` relative to its neighbours; that it ever does is ASSUMED only for the tolerance nalgebra's own `svd()` uses
   /// (5 * machine epsilon, svd.rs `new`) or a looser one. A tighter tolerance (0, NaN, anything below) with an unbounded
@@ -451,9 +451,10 @@ impl DMatrix {
   #[verifier::external_body]
   pub fn try_svd(self, compute_u: bool, compute_v: bool, eps: Sc, max_niter: usize) -> (r: Option<SVD>)
     requires self.ok(), self@.r >= 1, self@.c >= 1, self.fin(),
-             max_niter >= 1 || (eps.fin() && eps@ >= 5real * EPS()),
-    ensures r matches Some(s) ==> ((compute_u && compute_v && 0real <= eps@ <= EPS()) ==> s.is_of(self@)
+             max_niter >= 1 || eps@ >= 5real * EPS(),
+    ensures r matches Some(s) ==> ((compute_u && compute_v && 0real <= eps@ <= 5real * EPS()) ==> s.is_of(self@)
               && svd_ok(self@, svd_u(self@), svd_s(self@), svd_vt(self@))),
+            max_niter == 0 ==> r.is_some(),   // None is returned only when a positive iteration budget is exhausted
   { unimplemented!() }
   /// nalgebra pseudo_inverse(eps) (linalg/pinv.rs -> svd.rs pseudo_inverse): eps < 0 => Err; singular values <= eps are
   /// treated as zero, so this is the inverse only when no singular value is truncated
@@ -469,9 +470,10 @@ impl SVD {
   #[verifier::external_body]
   pub fn try_new(matrix: DMatrix, compute_u: bool, compute_v: bool, eps: Sc, max_niter: usize) -> (r: Option<SVD>)
     requires matrix.ok(), matrix@.r >= 1, matrix@.c >= 1, matrix.fin(),
-             max_niter >= 1 || (eps.fin() && eps@ >= 5real * EPS()),
-    ensures r matches Some(s) ==> ((compute_u && compute_v && 0real <= eps@ <= EPS()) ==> s.is_of(matrix@)
+             max_niter >= 1 || eps@ >= 5real * EPS(),
+    ensures r matches Some(s) ==> ((compute_u && compute_v && 0real <= eps@ <= 5real * EPS()) ==> s.is_of(matrix@)
               && svd_ok(matrix@, svd_u(matrix@), svd_s(matrix@), svd_vt(matrix@))),
+            max_niter == 0 ==> r.is_some(),
   { unimplemented!() }
   /// nalgebra `SVD::new(matrix, compute_u, compute_v)`: what `Matrix::svd` calls
   #[verifier::external_body]
